@@ -109,7 +109,7 @@ class C03(Check):
     level_text = ('For each generated stack the single-fault space (<= 17 layers x 4 behaviours) is enumerated '
                   'completely and compared, event by event, with a reference interpreter; stacks are sampled by seed.')
     level_note = 'Trusted: the reference onion interpreter (written from the property text, ~90 lines).'
-    required_probes = ('subclass-and-base-in-one-stack', 'closure-hooks', 'second-route-without-own-middlewares', 'render-skipped-for-response', 'no-render-layers-ran', 'unique-deduped', 'three-levels',
+    required_probes = ('non-response-value-through-layers', 'unique-type-twice-in-route-list', 'subclass-and-base-in-one-stack', 'closure-hooks', 'second-route-without-own-middlewares', 'render-skipped-for-response', 'no-render-layers-ran', 'unique-deduped', 'three-levels',
                        'swallow-fired', 'double-fault')
 
     def gen_config(self, rng):
@@ -144,6 +144,10 @@ class C03(Check):
         has_sub = rng.random() < 0.5
         sub = pick(2, banned=nonreo & set(outer)) if has_sub else None
         route = pick(3, banned=nonreo & (set(outer) | set(sub or [])))
+        dup_ok = [t for t in route if types[t]['unique'] and types[t]['reorderable']]
+        if dup_ok and rng.random() < 0.3:
+            # the route lists a unique type twice: it still appears once in the chain
+            route.insert(rng.randrange(len(route) + 1), rng.choice(dup_ok))
         return {'types': types, 'outer': outer, 'sub': sub, 'route': route,
                 'ep_returns': rng.choice(['dict', 'dict', 'resp', 'baseresp']), 'has_render': rng.random() < 0.8}
 
@@ -161,6 +165,13 @@ class C03(Check):
         ops.append({'faults': {'EP': {'beh': 'raise', 'exc': frng.choice(excs)}}})
         if cfg['has_render']:
             ops.append({'faults': {'RN': {'beh': 'raise', 'exc': frng.choice(excs)}}})
+            # the render side hands back something that is not a Response: it must reach every caller's next() as is
+            for v in ('none', 'str', 'number'):
+                ops.append({'faults': {'RN': {'beh': 'return', 'value': v}}})
+        for v in ('none', 'str'):
+            ops.append({'faults': {'EP': {'beh': 'return', 'value': v}}})
+        for name in frng.sample(layers, min(3, len(layers))):
+            ops.append({'faults': {name: {'beh': frng.choice(['return_early', 'replace_after']), 'value': frng.choice(['none', 'str', 'number', 'list'])}}})
         allf = layers + ['EP'] + (['RN'] if cfg['has_render'] else [])
         for _ in range(4 if tier == 'quick' else 10):
             if len(allf) >= 2:
@@ -188,6 +199,8 @@ class C03(Check):
         except Exception as e:
             res.violate(K + 'setup-failed:%s' % type(e).__name__, 'valid-by-construction stack rejected: %r\n%s' % (e, canon(cfg)))
             return res
+        if len(set(cfg['route'])) < len(cfg['route']):
+            res.probe('unique-type-twice-in-route-list')
         n_inst = len(cfg['outer']) + len(cfg.get('sub') or []) + len(cfg['route'])
         if len(order) < n_inst:
             res.probe('unique-deduped')
@@ -213,6 +226,8 @@ class C03(Check):
             got_out = (ex.code, ex.header('X-Sim-From') if ex.code == 200 else None)
             fired = [f for f in faults if any(t.startswith(('!' + f + ' ', '<' + f + ' ')) for t in got_trace)
                      and faults[f]['beh'] != 'pass']
+            if any(faults[f].get('value') in ('none', 'str', 'number', 'list') for f in fired):
+                res.probe('non-response-value-through-layers')
             for f in fired:
                 res.fire(faults[f]['beh'])
             if fired:
